@@ -48,7 +48,7 @@ for l in (1, 2, 3, 4):
 ob("enc_w_hex_odd_digit", ["C05"], "enc.rs", unwind=4, cuts=X1_ERR, stubs=[FMT_STUB],
    functions=["enc::decode_hex"], bound="the single input '7>'")
 for l in (1, 2, 3):
-    ob("enc_hex_roundtrip_l%d" % l, ["C16"], "enc.rs", unwind=2 * l + 2, cuts=X1_ERR, stubs=[FMT_STUB],
+    ob("enc_hex_roundtrip_l%d" % l, ["C16"], "enc.rs", unwind=2 * l + 4, cuts=X1_ERR, stubs=[FMT_STUB],
        tier="quick" if l <= 2 else "thorough", timeout=900,
        functions=["enc::encode_hex", "enc::decode_hex", "enc::encode_nibble", "enc::decode_nibble"],
        bound="all byte strings of length %d" % l)
@@ -394,6 +394,21 @@ for w_ in ("colors", "bits", "columns"):
     ob("enc_flate_hostile_%s" % w_, ["C14", "C01"], "enc.rs", tier="infeasible", unwind=12, cuts=X1_ERR, stubs=[FMT_STUB], timeout=1800, mem_gb=12,
        functions=FLFN, bound="predictor 12, EVERY i32 value of %s with the other two parameters at extreme values, 2 inflated bytes: "
        "no panic" % w_)
+
+
+# development-only obligations (experiments under X-properties) live in an optional side file so that editing them cannot
+# disturb a registered check that is running
+try:
+    import importlib.util as _ilu
+    _dev = _os.path.join(_os.path.dirname(_os.path.abspath(__file__)), "obligations_dev.py")
+    if _os.path.exists(_dev):
+        _spec = _ilu.spec_from_file_location("obligations_dev", _dev)
+        _mod = _ilu.module_from_spec(_spec)
+        _mod.ob = ob
+        _mod.__dict__.update({k: v for k, v in globals().items() if k.isupper()})
+        _spec.loader.exec_module(_mod)
+except Exception as _e:  # noqa
+    print("obligations_dev.py ignored: %r" % (_e,))
 
 
 def select(prop, tier, seed=0):
